@@ -139,6 +139,9 @@ def generator_scenarios(rng):
                 wl = dict(words=words, nolist=0, len=L, cap=cap)
                 wl.update(sep)
                 out.append(dict(kind="wl", wl=wl, maxTrials=0, failRateOne=1, mode="paths", paths=0, maxLeaves=0, tag="gen-%s-%d" % (cap, L), reps=0))
+    for L in (33, 40, 70):   # more coin flips than one raw word has bits
+        wl = dict(words=words, nolist=0, len=L, cap="random", sep="char", sepChar=o("-"))
+        out.append(dict(kind="wl", wl=wl, maxTrials=0, failRateOne=1, mode="paths", paths=0, maxLeaves=0, tag="gen-random-%d" % L, reps=0))
     for c in (dict(len=7, allow=15, exclude=16), dict(len=5, allow=4, require=4), dict(len=3, allowChars=o("abcde"), requireSets=[o("ab")])):
         base = dict(len=1, allow=0, require=0, exclude=0, allowChars=[], requireSets=[], excludeChars=[])
         base.update(c)
